@@ -24,7 +24,7 @@ structure Buf where
 
 structure G where
   heap : Bid → Buf
-  wire : Cid → Bytes              -- bytes handed to `conn.Write` per connection, in order
+  wire : Cid → List Bytes         -- the buffers handed to `conn.Write` per connection, one entry per call, in order
 
 inductive Op where
   | malloc (b : Bid) (n : Nat)    -- `mempool.Malloc(n)` returned buffer `b` (len n, contents = what was there)
@@ -45,7 +45,7 @@ def init : G := { heap := fun _ => {}, wire := fun _ => [] }
 def set (g : G) (b : Bid) (x : Buf) : G := { g with heap := fun i => if i = b then x else g.heap i }
 
 def emit (g : G) (c : Cid) (d : Bytes) : G :=
-  { g with wire := fun i => if i = c then g.wire c ++ d else g.wire i }
+  { g with wire := fun i => if i = c then g.wire c ++ [d] else g.wire i }
 
 /-- `Malloc(n)` on recycled memory: length n, old bytes still there -/
 def resize (n : Nat) (old : Bytes) : Bytes := (old ++ List.replicate n 0).take n
